@@ -237,6 +237,40 @@ theorem departure_never_wedges_close {cfg : Cfg} (hfix : cfg.fixed = true) (hcap
     ∃ s', Steps (Batcher.lts cfg) (Allowed stalled) s s' ∧ s'.bc = .returned :=
   close_completes hfix hcap hr hb hd
 
+/-! ## the current source (regenerated facts, T1) -/
+
+/-- The shapes the model is written against, as `factgen_c10` finds them in the working tree: the
+select of the fan-out, the forwarder's exit function (exit channel closed BEFORE the lock), the
+forwarder's two selects, `Batch`, `Close`, the lock discipline, the two hook sites. -/
+theorem source_shape :
+    Kit.Generated.C10.executeCases = ["send", "exitCh", "closeCh"] ∧
+    Kit.Generated.C10.executeShape = ["lock", "deferUnlock", "closedReturn", "fanout"] ∧
+    Kit.Generated.C10.forwarderExit = ["closeExitCh", "hook", "lock", "closeUserCh", "remove", "unlock", "wgDone"] ∧
+    Kit.Generated.C10.forwarderOuter = ["ctxDone", "closeCh", "take"] ∧
+    Kit.Generated.C10.forwarderInner = ["deliver", "ctxDone", "closeCh"] ∧
+    Kit.Generated.C10.batchEnqueuesNowPlusInterval = true ∧
+    Kit.Generated.C10.closeOrder = ["deferWgWait", "queueClose", "lock", "casCloseCh", "unlock"] ∧
+    Kit.Generated.C10.subscribeUnderLock = true ∧
+    Kit.Generated.C10.hookSites = ["batcher.forwarder.exit", "batcher.execute.beforeSend"] := by decide
+
+/-- The source has the repaired fan-out and a buffer of positive capacity: the hypotheses of the
+`departure_never_wedges_*` theorems hold of `codeCfg`. -/
+theorem code_is_repaired (interval : Int) : (codeCfg interval).fixed = true ∧ 0 < (codeCfg interval).cap := by
+  exact ⟨by simp only [codeCfg]; decide, by simp only [codeCfg]; decide⟩
+
+/-- `departure_never_wedges_close` for the configuration of the current source. -/
+theorem code_close_never_wedges (interval : Int) {stalled : Nat → Prop} {s : State}
+    (hr : Reach (Batcher.lts (codeCfg interval)) s) (hb : s.bc ≠ .idle) (hd : Departed stalled s) :
+    ∃ s', Steps (Batcher.lts (codeCfg interval)) (Allowed stalled) s s' ∧ s'.bc = .returned :=
+  departure_never_wedges_close (code_is_repaired interval).1 (code_is_repaired interval).2 hr hb hd
+
+/-- `departure_never_wedges_execute` for the configuration of the current source. -/
+theorem code_execute_never_wedges (interval : Int) {stalled : Nat → Prop} {s : State}
+    (hr : Reach (Batcher.lts (codeCfg interval)) s) {r : It} (hpc : s.p.pc = .running r) (hd : Departed stalled s) :
+    ∃ s', Steps (Batcher.lts (codeCfg interval)) (Allowed stalled) s s' ∧ s'.epc = .idle ∧
+      s'.p = { s.p with pc := .top } :=
+  departure_never_wedges_execute (code_is_repaired interval).1 (code_is_repaired interval).2 hr hpc hd
+
 /-! ## the fan-out before the fix: the wedge -/
 
 /-- **wedge_witness**: in the model of the code as it was found (`fixed = false`: `execute` selects
